@@ -204,6 +204,9 @@ func (s *Script) Eval(stack, data any) any {
 }
 
 func (s *Script) evalWithRoot(stack, data, root any) (any, Expr) {
+	if len(s.template) == 0 { // the zero value, Script{} or Filter{}, matches nothing
+		return stack, nil
+	}
 	// Checking the type each iteration adds 2.5% but allows code not to be
 	// duplicated and not to call a separate function. Using just one more
 	// function call for each iteration adds 6.5%.
@@ -321,6 +324,10 @@ func (s *Script) evalWithRoot(stack, data, root any) (any, Expr) {
 			case Expr:
 				var has bool
 				dv := v
+				if len(x) == 0 { // an empty path, Get(Expr{}), selects nothing
+					sstack[i] = Nothing
+					break
+				}
 				switch x[0].(type) {
 				case At:
 					// The most common pattern is [?(@.child == value)] where
